@@ -33,17 +33,16 @@ def parseVar (kind idx : String) : Option (VSt × Bool) :=
     else none
 
 /-- `@Type l2enc oer <val>` → `ok <hex>` | `fail`   (canonical OER, X.696)
-    `@Type l2enc oer-unsorted <val>`               (SET OF elements in the given order: classifies F55)
     `@Type l2dec oer <hex>` → `ok <consumed> <val>` | `more` | `fail`
     `@Type l2oty` → the OER view of the type
     `@Type l2encvar oer <kind>[:<param>] <index>[+] <val>` → `ok <hex>` | `same` | `fail`: the BASIC-OER encoding with
       the variation `kind` ∈ none | bool:<n> | enum | len:<pad> | older:<n> | newer:<-|e|hex,…> | setof:<rot> applied at the
       `index`-th applicable position (`+`: and at all later ones); `same` = no applicable position / nothing changed -/
 def run (ctx : ModCtx) (tyName : String) : List String → String
-  | "l2enc" :: syn :: vwords =>
+  | "l2enc" :: _ :: vwords =>
     match resolveONamed ctx tyName, (Sexp.parseWords vwords).bind parseVal with
     | some t, some v =>
-      match encOER (if syn == "oer-unsorted" then unsortTy t else t) v with
+      match encOER t v with
       | some bs => "ok " ++ toHex bs
       | none => "fail"
     | none, _ => "unsupported-type"
@@ -77,7 +76,6 @@ def run (ctx : ModCtx) (tyName : String) : List String → String
 def oerHandler : Driver.Ops.L2.SubHandler := fun ctx ty toks =>
   match toks with
   | "l2enc" :: "oer" :: _ => some (run ctx ty toks)
-  | "l2enc" :: "oer-unsorted" :: _ => some (run ctx ty toks)
   | ["l2dec", "oer", _] => some (run ctx ty toks)
   | "l2encvar" :: "oer" :: _ :: _ :: _ => some (run ctx ty toks)
   | ["l2oty"] => some (run ctx ty toks)
